@@ -6,6 +6,9 @@ package chain_test
 
 import (
 	"context"
+	"crypto/ecdsa"
+	"crypto/elliptic"
+	"crypto/sha256"
 	"encoding/binary"
 	"errors"
 	"fmt"
@@ -540,6 +543,7 @@ type pvSigner struct {
 	cache     map[string]*chain.Transaction
 	dPos      []*bls.Signature // G2 elements d_j
 	dNeg      []*bls.Signature // -d_j
+	secpNeg   chain.AuthFactory // secp256r1 key n-d of the first secp256r1 key d: same X, opposite parity
 }
 
 // The 14 encodings of the 8 small-order points of edwards25519 (8 canonical, 6 non-canonical:
@@ -575,6 +579,11 @@ func pvNewSigner(t *testing.T) *pvSigner {
 		}
 		s.factories['e'] = append(s.factories['e'], auth.NewED25519Factory(ep))
 		s.factories['s'] = append(s.factories['s'], auth.NewSECP256R1Factory(sp))
+		if i == 0 {
+			nb := make([]byte, secp256r1.PrivateKeyLen)
+			new(big.Int).Sub(elliptic.P256().Params().N, new(big.Int).SetBytes(sp[:])).FillBytes(nb)
+			s.secpNeg = auth.NewSECP256R1Factory(secp256r1.PrivateKey(nb))
+		}
 		s.factories['b'] = append(s.factories['b'], auth.NewBLSFactory(bp))
 		// d = dk*H(m) and -d = (r-dk)*H(m): a pair of opposite G2 elements
 		neg := make([]byte, 32)
@@ -600,6 +609,12 @@ func (s *pvSigner) addresses() []codec.Address {
 			as = append(as, f.Address())
 		}
 	}
+	as = append(as, s.secpNeg.Address())
+	if a0, err := s.factories['s'][0].Sign([]byte{0}); err == nil {
+		bad := a0.(*auth.SECP256R1).Signer
+		bad[0] = 0x05
+		as = append(as, auth.NewSECP256R1Address(bad))
+	}
 	for _, h := range pvSmallOrder {
 		var pk ed25519.PublicKey
 		copy(pk[:], verifh.MustUnHex(h))
@@ -611,7 +626,10 @@ func (s *pvSigner) addresses() []codec.Address {
 // pvItemOK: item tokens. <t><k> with t = e|s|b and k = 1 valid | 0 corrupted signature | 2 other message signed;
 // e3[.<i>.<j>]: ed25519 with small-order signer encoding i, R encoding j (default 0.0), s = 0 — valid for
 // every message under ZIP-215; e4: the same with s = 1 — invalid; b5 / b6: BLS signature plus / minus a G2
-// element d (the k-th b5 and the k-th b6 of a block use the same d) — each invalid on its own.
+// element d (the k-th b5 and the k-th b6 of a block use the same d) — each invalid on its own;
+// secp256r1 same-X family on the first secp256r1 key d (an `s1` at a position divisible by 3 uses d):
+// s7 names the opposite-parity key (prefix 02<->03) but is signed by d — invalid; s8 is signed by n-d and
+// names n-d's key (same X, other parity) — valid; s9 names prefix 05 (malformed) — invalid.
 func pvItemOK(tok string) bool {
 	if strings.HasPrefix(tok, "e3.") {
 		p := strings.Split(tok, ".")
@@ -636,12 +654,34 @@ func pvItemOK(tok string) bool {
 		return tok[0] == 'e'
 	case '5', '6':
 		return tok[0] == 'b'
+	case '7', '8', '9':
+		return tok[0] == 's'
 	}
 	return false
 }
 
 // pvItemValid: does the item verify one-by-one (what the Lean model is told)
-func pvItemValid(tok string) bool { return tok[1] == '1' || tok[1] == '3' }
+func pvItemValid(tok string) bool { return tok[1] == '1' || tok[1] == '3' || tok[1] == '8' }
+
+// pvRefVerify is the reference one-by-one verification. For secp256r1 it does not go through the
+// repository's crypto/secp256r1.Verify (which may keep state between calls) but straight to the
+// standard library: the signature must verify under exactly the named compressed public key.
+func pvRefVerify(tx *chain.Transaction) bool {
+	if a, ok := tx.Auth.(*auth.SECP256R1); ok {
+		x, y := elliptic.UnmarshalCompressed(elliptic.P256(), a.Signer[:])
+		if x == nil || y == nil {
+			return false
+		}
+		digest := sha256.Sum256(tx.UnsignedBytes())
+		r, sv := new(big.Int).SetBytes(a.Signature[:32]), new(big.Int).SetBytes(a.Signature[32:])
+		half := new(big.Int).Rsh(elliptic.P256().Params().N, 1)
+		if sv.Cmp(half) > 0 { // the repository only accepts normalized (low) s
+			return false
+		}
+		return ecdsa.Verify(&ecdsa.PublicKey{Curve: elliptic.P256(), X: x, Y: y}, digest[:], r, sv)
+	}
+	return tx.Auth.Verify(context.Background(), tx.UnsignedBytes()) == nil
+}
 
 // pvPairs: for every item its ordinal among the items of the same kind (selects d for b5/b6)
 func pvPairs(toks []string) []int {
@@ -685,6 +725,18 @@ func (s *pvSigner) item(tok string, pos, pair int) *chain.Transaction {
 			e.Signature[32] = 1
 		}
 		a = e
+	case '7', '9':
+		a, err = s.factories['s'][0].Sign(td.UnsignedBytes())
+		if err == nil {
+			v := a.(*auth.SECP256R1)
+			if kind == '9' {
+				v.Signer[0] = 0x05
+			} else {
+				v.Signer[0] ^= 0x01 // 02 <-> 03
+			}
+		}
+	case '8':
+		a, err = s.secpNeg.Sign(td.UnsignedBytes())
 	case '5', '6':
 		a, err = f.Sign(td.UnsignedBytes())
 		if err == nil {
@@ -773,7 +825,7 @@ func (e *pv16Env) exec(t *testing.T, r *verifh.Run, l string, f []string) {
 		txs = append(txs, tx)
 		// oracle: one-by-one Auth.Verify over the tx's unsigned bytes
 		verr := tx.Auth.Verify(context.Background(), tx.UnsignedBytes())
-		if verr != nil {
+		if !pvRefVerify(tx) {
 			want = false
 		}
 		if pvItemValid(it) != (verr == nil) {
@@ -872,6 +924,9 @@ func pv16Generate(r *verifh.Run) []string {
 		}
 		out = append(out, line(w, items))
 	}
+	// secp256r1 same-X / opposite-parity family, inside one block and across consecutive blocks
+	out = append(out, line(1, []string{"s1", "s7"}), line(1, []string{"s1", "s8", "e1"}), line(1, []string{"s1"}),
+		line(1, []string{"s7"}), line(1, []string{"s8"}), line(2, []string{"s9"}), line(1, []string{"s8", "s1"}), line(1, []string{"s1", "s9"}))
 	// ZIP-215 edge vectors and BLS offset pairs through Chain.Execute
 	for a := 0; a < len(pvSmallOrder); a++ {
 		out = append(out, line(1+a%4, []string{"e1", fmt.Sprintf("e3.%d.%d", a, (a*3+10)%len(pvSmallOrder)), "e1", "e1", "s1"}))
